@@ -1,6 +1,262 @@
 import Fabio.Driver.Proto
+import Fabio.Model.C12Parse
 namespace Fabio.Driver.C12
-open Lean Fabio.Driver
+open Lean Fabio.Driver Fabio.Model.C12 Fabio.Model.C12.Parse
 
-def streams : List (String × Handler) := []
+/-! ### JSON plumbing -/
+
+def hexDigit (n : Nat) : Char := if n < 10 then Char.ofNat (48 + n) else Char.ofNat (87 + n)
+
+def toHex (width n : Nat) : String :=
+  String.ofList ((List.range width).reverse.map fun i => hexDigit ((n >>> (4 * i)) % 16))
+
+def ofHex (s : String) : Option Nat :=
+  s.toList.foldl (fun acc c => match acc, hexVal c with
+    | some a, some d => some (a * 16 + d)
+    | _, _ => none) (some 0)
+
+def ipJson (ip : IP) : Json := Json.str (toHex (if ip.v6 then 32 else 8) ip.val)
+
+def ipOfHex (s : String) : Option IP :=
+  if s.length = 8 then (ofHex s).map (fun v => { v6 := false, val := v })
+  else if s.length = 32 then (ofHex s).map (fun v => { v6 := true, val := v })
+  else none
+
+def blockJson (n : IPNet) : Json :=
+  Json.mkObj [("ip", ipJson n.ip), ("mask", Json.str (toHex (n.bits / 4) (cidrMask n.ones n.bits)))]
+
+def optList (f : IPNet → Json) : Option (List IPNet) → Json
+  | none => Json.null
+  | some bs => Json.arr (bs.map f).toArray
+
+def rulesJson (r : Rules) : Json :=
+  Json.mkObj [("allow", optList blockJson r.allow), ("deny", optList blockJson r.deny), ("other", Json.arr #[])]
+
+def errJson : Option RuleErr → Json
+  | none => ""
+  | some .both => "both"
+  | some .noColon => "nocolon"
+  | some .badIP => "badip"
+  | some .badCIDR => "badcidr"
+  | some .unknownType => "unknowntype"
+
+def strList (j : Json) : Except String (List (List Char)) := do
+  match j with
+  | .null => return []
+  | _ =>
+    let a ← j.getArr?
+    a.toList.mapM (fun x => do let s ← x.getStr?; return s.toList)
+
+def getStrD (j : Json) (k : String) : String := (j.getObjValAs? String k).toOption.getD ""
+def getBoolD (j : Json) (k : String) : Bool := (j.getObjValAs? Bool k).toOption.getD false
+
+def tcpPeerOf (j : Json) : TCPPeer :=
+  match getStrD j "kind" with
+  | "tcp" => .addr (ipOfHex (getStrD j "ip"))
+  | _ => .notTCP
+
+/-! ### The specification predicate on the implementation's output
+
+The Go side ships, next to the decision of the real code, an evaluation by `net/netip` that shares no code
+with `route/access_rules.go`: whether the options are well-formed, and for the peer and every
+X-Forwarded-For element whether it is an address (`ok`) and inside one of the listed blocks (`in`). -/
+
+structure RefAddr where
+  ok : Bool
+  inside : Bool
+  same : Bool := false
+
+def refAddr (j : Json) : RefAddr := { ok := getBoolD j "ok", inside := getBoolD j "in", same := getBoolD j "same" }
+
+/-- "admitted ⇒ justified" for one address under mode allow/deny. -/
+def justified (mode : String) (a : RefAddr) : Bool :=
+  a.ok && (if mode == "allow" then a.inside else !a.inside)
+
+def specDecision (ref : Json) (deniedHTTP deniedTCP : Option Bool) : Bool :=
+  let hasRules := getBoolD ref "hasRules"
+  let malformed := getBoolD ref "malformed"
+  let mode := getStrD ref "mode"
+  if !hasRules then true
+  else if malformed then deniedHTTP.getD true && deniedTCP.getD true   -- never widens: everybody is denied
+  else
+    let peer := refAddr ((ref.getObjVal? "peer").toOption.getD Json.null)
+    let tcp := refAddr ((ref.getObjVal? "tcpPeer").toOption.getD Json.null)
+    let xs := ((ref.getObjVal? "xff").toOption.bind (fun j => j.getArr?.toOption)).getD #[]
+    let httpOk := match deniedHTTP with
+      | some false => justified mode peer && xs.all (fun x => let a := refAddr x; !a.ok || a.same || justified mode a)
+      | _ => true
+    let tcpOk := match deniedTCP with
+      | some false => justified mode tcp
+      | _ => true
+    httpOk && tcpOk
+
+/-! ### Streams -/
+
+/-- c12.parse — the Lean parsers against `net.ParseIP` / `net.ParseCIDR` / `net.SplitHostPort`. -/
+def parseH : Handler := fun inp impl => do
+  let kind ← inp.getObjValAs? String "kind"
+  let s ← inp.getObjValAs? String "s"
+  let m : Json := match kind with
+    | "ip" => match parseIP s.toList with | none => Json.null | some ip => ipJson ip
+    | "cidr" => match parseCIDR s.toList with | none => Json.null | some n => blockJson n
+    | _ => match splitHostPort s.toList with | none => Json.null | some h => Json.str (String.ofList h)
+  return ({ model := m, agree := m == impl, spec := true, nontrivial := m != Json.null,
+            tag := kind ++ (if m == Json.null then "-reject" else "-accept") } : Verdict).toJson
+
+def modeOf (allow deny : String) : String :=
+  if allow != "" then "allow" else if deny != "" then "deny" else "none"
+
+/-- c12.decide — options × peer × X-Forwarded-For: rule map, error class, decision of `AccessDeniedHTTP`. -/
+def decideH : Handler := fun inp impl => do
+  let allow := getStrD inp "allow"
+  let deny := getStrD inp "deny"
+  let remote := getStrD inp "remote"
+  let xff ← strList ((inp.getObjVal? "xff").toOption.getD Json.null)
+  let (rules, err) := processAccessRules goParsers allow.toList deny.toList
+  let dh := accessDeniedHTTP goParsers rules remote.toList xff
+  let m := Json.mkObj [("rules", rulesJson rules), ("err", errJson err), ("http", dh)]
+  let implCore := Json.mkObj [("rules", (impl.getObjVal? "rules").toOption.getD Json.null),
+    ("err", (impl.getObjVal? "err").toOption.getD Json.null),
+    ("http", (impl.getObjVal? "http").toOption.getD Json.null)]
+  let ref := (impl.getObjVal? "ref").toOption.getD Json.null
+  let ih := (impl.getObjValAs? Bool "http").toOption
+  let spec := ih.isSome && specDecision ref ih none
+  -- class of the case
+  let hasZoneEl := (xffElems xff).any (fun x => x.contains '%')
+  let peerClass : String :=
+    match splitHostPort remote.toList with
+    | none => "peer-nosplit"
+    | some host =>
+      if (parseIP (stripZone host)).isNone then "peer-unparsable"
+      else if host.contains '%' then "peer-zone"
+      else if xff.length > 1 then "xff-multiline"
+      else if hasZoneEl then "xff-zone"
+      else if xff.length = 1 then "xff"
+      else "peer"
+  let tag := match err with
+    | some _ => "badrule-" ++ (errJson err).getStr?.toOption.getD ""
+    | none => modeOf allow deny ++ "-" ++ peerClass
+  return ({ model := m, agree := m == implCore, spec := spec,
+            nontrivial := !rules.isEmpty, tag := tag } : Verdict).toJson
+
+/-- c12.tcp — options × remote address of the connection: decision of `AccessDeniedTCP`. -/
+def tcpH : Handler := fun inp impl => do
+  let allow := getStrD inp "allow"
+  let deny := getStrD inp "deny"
+  let tcpJ := (inp.getObjVal? "tcp").toOption.getD Json.null
+  let tcp := tcpPeerOf tcpJ
+  let (rules, err) := processAccessRules goParsers allow.toList deny.toList
+  let dt := accessDeniedTCP rules tcp
+  let m := Json.mkObj [("tcp", dt)]
+  let it := (impl.getObjValAs? Bool "tcp").toOption
+  let ref := (impl.getObjVal? "ref").toOption.getD Json.null
+  let spec := it.isSome && specDecision ref none it
+  let peerClass : String := match tcp with
+    | .notTCP => "not-tcpaddr"
+    | .addr none => "nil-ip"
+    | .addr (some ip) => if ip.v6 then (if ip.to4.isSome then "mapped" else "ip16") else "ip4"
+  let tag := match err with
+    | some _ => "badrule-" ++ (errJson err).getStr?.toOption.getD ""
+    | none => modeOf allow deny ++ "-" ++ peerClass
+  return ({ model := m, agree := some dt == it, spec := spec, nontrivial := !rules.isEmpty, tag := tag } : Verdict).toJson
+
+def credOf (j : Json) : Option (List Char × List Char) :=
+  if getStrD j "mode" == "basic" then some ((getStrD j "user").toList, (getStrD j "pass").toList) else none
+
+def secretsOf (j : Json) : List (List Char × List Char) :=
+  match j.getArr? with
+  | .ok a => a.toList.filterMap (fun p => match p.getArr? with
+      | .ok #[u, v] => match u.getStr?, v.getStr? with
+        | .ok u, .ok v => some (u.toList, v.toList)
+        | _, _ => none
+      | _ => none)
+  | .error _ => []
+
+def authModel (inp : Json) : Except String Bool := do
+  let scheme := getStrD inp "scheme"
+  let reg ← strList ((inp.getObjVal? "registered").toOption.getD Json.null)
+  let secrets := secretsOf ((inp.getObjVal? "secrets").toOption.getD Json.null)
+  let cred := credOf ((inp.getObjVal? "cred").toOption.getD Json.null)
+  return authorized scheme.toList (reg.map (fun n => (n, ()))) (fun _ => basicVerdict secrets cred)
+
+/-- c12.auth — `Target.Authorized` with the real `auth.LoadAuthSchemes` (htpasswd basic auth). -/
+def authH : Handler := fun inp impl => do
+  let ok ← authModel inp
+  let m := Json.mkObj [("ok", ok)]
+  let iok := (impl.getObjValAs? Bool "ok").toOption
+  let scheme := getStrD inp "scheme"
+  let reg ← strList ((inp.getObjVal? "registered").toOption.getD Json.null)
+  let secrets := secretsOf ((inp.getObjVal? "secrets").toOption.getD Json.null)
+  let cred := credOf ((inp.getObjVal? "cred").toOption.getD Json.null)
+  -- spec, stated directly: accepted ⇒ no scheme, or a registered scheme and a stored user/password pair
+  let spec := match iok with
+    | some true => scheme == "" || (reg.contains scheme.toList &&
+        (match cred with | some (u, p) => secrets.any (fun (u', p') => u' == u && p' == p) | none => false))
+    | some false => true
+    | none => false
+  let tag := if scheme == "" then "noscheme" else if !reg.contains scheme.toList then "unknown-scheme"
+    else match cred with | none => "known-nocred" | some _ => if ok then "known-good" else "known-bad"
+  return ({ model := m, agree := some ok == iok, spec := spec, nontrivial := scheme != "", tag := tag } : Verdict).toJson
+
+/-- c12.gate — the real proxies in front of a counting upstream. The peer address is whatever the kernel
+assigned to the client socket (reported by the harness in `impl.peer`). -/
+def gateH : Handler := fun inp impl => do
+  let proto := getStrD inp "proto"
+  let allow := getStrD inp "allow"
+  let deny := getStrD inp "deny"
+  let noroute := getBoolD inp "noroute"
+  let xff ← strList ((inp.getObjVal? "xff").toOption.getD Json.null)
+  let peer := getStrD impl "peer"
+  let hits := (impl.getObjValAs? Nat "hits").toOption.getD 999
+  let (rules, err) := processAccessRules goParsers allow.toList deny.toList
+  let isHTTP := proto == "http"
+  let denied :=
+    if isHTTP then accessDeniedHTTP goParsers rules peer.toList xff
+    else
+      let ip := (splitHostPort peer.toList).bind (fun h => parseIP (stripZone h))
+      accessDeniedTCP rules (.addr ip)
+  let authOk ← if isHTTP then authModel inp else pure true
+  let steps : List Step := if isHTTP then [.lookup, .access, .auth, .upstream] else [.lookup, .access, .upstream]
+  let (reply, contacted) := runGate { found := !noroute, denied := denied, authorized := authOk } steps false
+  let outcome : String := match reply with
+    | .noRoute => if isHTTP then "404" else "closed"
+    | .forbidden => if isHTTP then "403" else "closed"
+    | .unauthorized => "401"
+    | .served => if isHTTP then "200" else "echo"
+  let m := Json.mkObj [("outcome", outcome), ("hits", if contacted then (1 : Nat) else (0 : Nat))]
+  let ioutcome := getStrD impl "outcome"
+  let implCore := Json.mkObj [("outcome", ioutcome), ("hits", hits)]
+  -- spec on the implementation's own output: a refusal leaves the upstream untouched, and an upstream is
+  -- touched only for a request the independent evaluation admits (and, HTTP, whose credentials are good)
+  let ref := (impl.getObjVal? "ref").toOption.getD Json.null
+  let refused := ioutcome == "403" || ioutcome == "401" || ioutcome == "404" || ioutcome == "closed"
+  let admittedOK := if isHTTP then specDecision ref (some false) none else specDecision ref none (some false)
+  let spec := (!refused || hits == 0) && (hits == 0 || (admittedOK && authOk && !noroute))
+    && (ioutcome == "200" || ioutcome == "echo" || refused)
+  let tag := proto ++ "-" ++ (match err with | some _ => "badrule" | none => modeOf allow deny) ++ "-" ++ outcome
+  return ({ model := m, agree := m == implCore, spec := spec,
+            nontrivial := !rules.isEmpty || getStrD inp "scheme" != "", tag := tag } : Verdict).toJson
+
+/-- c12.grpc — the gRPC proxy path. No credentials are sent and no scheme is registered, so a route naming a
+scheme must reject; the peer is the client's socket address. -/
+def grpcH : Handler := fun inp impl => do
+  let allow := getStrD inp "allow"
+  let deny := getStrD inp "deny"
+  let scheme := getStrD inp "scheme"
+  let peer := getStrD impl "peer"
+  let hits := (impl.getObjValAs? Nat "hits").toOption.getD 999
+  let (rules, _) := processAccessRules goParsers allow.toList deny.toList
+  let ip := (splitHostPort peer.toList).bind (fun h => parseIP (stripZone h))
+  let denied := accessDeniedTCP rules (.addr ip)
+  let authOk := authorized scheme.toList ([] : List (List Char × Unit)) (fun _ => true)
+  let (_, contacted) := runGate { found := true, denied := denied, authorized := authOk } [.lookup, .access, .auth, .upstream] false
+  let m := Json.mkObj [("forwarded", contacted)]
+  let ref := (impl.getObjVal? "ref").toOption.getD Json.null
+  let spec := hits == 0 || (specDecision ref none (some false) && scheme == "")
+  let tag := if denied then "grpc-denied-by-rules" else if !authOk then "grpc-unauthorized" else "grpc-admitted"
+  return ({ model := m, agree := contacted == (hits > 0), spec := spec,
+            nontrivial := !rules.isEmpty || scheme != "", tag := tag } : Verdict).toJson
+
+def streams : List (String × Handler) :=
+  [("c12.parse", parseH), ("c12.decide", decideH), ("c12.tcp", tcpH), ("c12.auth", authH), ("c12.gate", gateH), ("c12.grpc", grpcH)]
 end Fabio.Driver.C12
